@@ -171,7 +171,7 @@ PROPS = {
         assumptions=[],
         jobs=[
             dict(harness="codec", prop="c05_stream", kind="enum"),
-            dict(harness="reread", prop="c05_file", cases=(640, 24000), size=(30, 80)),
+            dict(harness="reread", prop="c05_file", cases=(640, 8000), size=(30, 80)),
         ],
     ),
     "C07": dict(
